@@ -3,6 +3,7 @@
 // Library calls that can allocate run inside a SimAlloc SUT scope; the
 // adapter's own bookkeeping does not.
 #pragma once
+#include <cmath>
 #include <cstring>
 #include <istream>
 #include <ostream>
@@ -167,9 +168,28 @@ struct cfg_reader<covfie::algebra::affine<N, T, I>> {
     static covfie::algebra::affine<N, T, I> get(const uint8_t *&p)
     {
         covfie::algebra::matrix<N, N + 1, T, I> m;
+        bool plain = true; // finite, no negative zero: then translation * linear part reproduces m bit for bit
+        unsigned h = 0;
         for (I i = 0; i < N; ++i)
-            for (I j = 0; j < N + 1; ++j)
+            for (I j = 0; j < N + 1; ++j) {
+                h = h * 31u + p[0] + p[sizeof(T) - 1];
                 m(i, j) = get_scalar<T>(p);
+                if (!(m(i, j) - m(i, j) == 0) || (m(i, j) == 0 && std::signbit(m(i, j))))
+                    plain = false;
+            }
+        if (plain && (h & 1)) {
+            // the way transforms are usually written down: composed from a translation and a
+            // linear part with affine * affine
+            covfie::algebra::matrix<N, N + 1, T, I> tm = covfie::algebra::matrix<N, N + 1, T, I>::identity(), lm;
+            for (I i = 0; i < N; ++i) {
+                tm(i, N) = m(i, N);
+                for (I j = 0; j < N; ++j)
+                    lm(i, j) = m(i, j);
+                lm(i, N) = static_cast<T>(0);
+            }
+            covfie::algebra::affine<N, T, I> t(tm), l(lm);
+            return t * l;
+        }
         return covfie::algebra::affine<N, T, I>(m);
     }
 };
